@@ -267,6 +267,42 @@ def model_twm(lab: Lab, has_other: bool, marks: dict) -> list:
     return out
 
 
+def model_twm_desc(seen: list, t0: float, P: dict) -> list | None:
+    """The same rule computed from the case description (timeout observable of element i is subscribed when the
+    element arrives and fires `offset` later; a synchronous one fires before anything else can arrive).  Returns None
+    as soon as a source notification coincides with the current deadline: that order is only known from the trace."""
+    out: list = []
+
+    def switch(at: float) -> list:
+        if P["other"] is None:
+            return out + [(at, "E", Exception)]
+        return out + cut_after_terminal([(at + t, k, v) for (t, k, v) in P["other"]])
+
+    def arm_(spec: dict | None, base: float) -> tuple[float | None, bool]:
+        if spec is None or T.fires_at(spec) is None:
+            return None, False
+        return base + T.fires_at(spec), spec["kind"] == "sync"
+
+    deadline, now_ = arm_(P["first"], t0)
+    if now_:
+        return switch(t0)
+    n = 0
+    for (t, k, v) in cut_after_terminal(seen):
+        if deadline is not None:
+            if t == deadline:
+                return None
+            if t > deadline:
+                return switch(deadline)
+        out.append((t, k, v))
+        if k in "EC":
+            return out
+        deadline, now_ = arm_(P["timeouts"][n] if P["timeouts"] is not None else None, t)
+        n += 1
+        if now_:
+            return switch(t)
+    return switch(deadline) if deadline is not None else out
+
+
 def describe(case: dict) -> dict:
     P = dict(case["P"])
     if "timeouts" in P:
@@ -380,6 +416,7 @@ def run_case(seed: int, idx: int, res: UnitResult) -> None:
     marks: dict = {}
     points = 0
     extra: dict = {}
+    by_desc = None
     if op in ("take_with_time", "take_until_with_time"):
         alts, points = T.alternatives(lambda tie: model_take(seen, SUB_AT + P["d"], SUB_AT, tie, marks))
     elif op in ("skip_with_time", "skip_until_with_time"):
@@ -389,6 +426,11 @@ def run_case(seed: int, idx: int, res: UnitResult) -> None:
             lambda tie: model_timeout(seen, SUB_AT, P["d"], P["shape"] == "abs", P["other"], tie, marks))
     else:
         alts = [model_twm(lab, P["other"] is not None, marks)]
+        by_desc = model_twm_desc(seen, SUB_AT, P)
+        if by_desc is not None:
+            # no coincidence on the way: the trace-driven expectation must agree with the description-driven one,
+            # otherwise the operator did not run the timeout observables as specified (never subscribed, disposed early)
+            res.count("twm_checked_against_description")
         em = T.emits(lab)
         stimes = {t for (seq, t, name, sid, k, v) in em if name == "s"}
         if any(name not in ("s", "other") and t in stimes for (seq, t, name, sid, k, v) in em):
@@ -396,6 +438,11 @@ def run_case(seed: int, idx: int, res: UnitResult) -> None:
             res.count("ties")
             res.count("boundary_hits")
     why = T.match_any(alts, actual)
+    if why is None and op == "timeout_with_mapper" and by_desc is not None:
+        why = match_expected(by_desc, actual)
+        if why is not None:
+            why = "expectation from the case description: " + why
+            alts = [by_desc]
     if op in ("timeout", "timeout_with_mapper"):
         if why is None:
             # "or fails": the failure must not be the source's own error object
